@@ -79,6 +79,8 @@ pub enum FKind {
     Shifted,
     /// sum of x (linear, optimum at the lower corner)
     Linear,
+    /// 1e-18 * sphere: improvements far below f64::EPSILON in absolute terms
+    Tiny,
 }
 
 #[derive(Clone)]
@@ -97,6 +99,7 @@ impl RealP {
             FKind::Sphere => x.iter().map(|v| v * v).sum::<f64>(),
             FKind::Shifted => x.iter().map(|v| (v - 0.3).abs()).sum::<f64>() + 0.5,
             FKind::Linear => x.iter().sum::<f64>() + 100.0,
+            FKind::Tiny => 1e-18 * x.iter().map(|v| v * v).sum::<f64>(),
         }
     }
 }
@@ -134,6 +137,7 @@ impl KnownOptimumProblem for RealP {
             FKind::Sphere => 0.0,
             FKind::Shifted => 0.5,
             FKind::Linear => self.dom.iter().map(|d| d.start).sum::<f64>() + 100.0,
+            FKind::Tiny => 0.0,
         };
         SingleObjective::try_from(v).unwrap()
     }
